@@ -1371,6 +1371,9 @@ where
                         }
                     }
 
+                    // `poll_request` skips decoding while the pipeline queue is full
+                    let queue_was_full = inner.messages.len() >= MAX_PIPELINED_MESSAGES;
+
                     inner.as_mut().poll_request(cx)?;
 
                     if should_disconnect {
@@ -1486,7 +1489,16 @@ where
                         inner_p.shutdown_timer,
                     );
 
-                    if inner_p.flags.intersects(Flags::LINGER | Flags::SHUTDOWN) {
+                    // Requests read while the pipeline queue was full have not been decoded. Now
+                    // that `poll_response` has drained the queue no I/O event would wake this task
+                    // for them, so schedule another poll.
+                    let undecoded_requests = queue_was_full
+                        && inner_p.messages.len() < MAX_PIPELINED_MESSAGES
+                        && !inner_p.read_buf.is_empty();
+
+                    if undecoded_requests
+                        || inner_p.flags.intersects(Flags::LINGER | Flags::SHUTDOWN)
+                    {
                         cx.waker().wake_by_ref();
                     }
                     Poll::Pending
